@@ -1266,6 +1266,8 @@ static void alloc_pfx_history(struct rng *r0, unsigned long fail_at, unsigned lo
 	struct puni u;
 	int nops = 8 + (int)rndn(&r, 30);
 	char key[160];
+	struct pfx_record *reason = NULL; /* one array for all queries of the history, as a caller would keep it */
+	unsigned int rl = 0;
 
 	puni_init(&u, &r);
 	MN = CBN = 0;
@@ -1323,8 +1325,6 @@ static void alloc_pfx_history(struct rng *r0, unsigned long fail_at, unsigned lo
 			const struct mrec *q = &M[rndn(&r, (uint32_t)MN)];
 			struct lrtr_ip_addr ip;
 			enum pfxv_state st;
-			struct pfx_record *reason = NULL;
-			unsigned int rl = 0;
 			unsigned long inj2 = AM.failures_injected;
 
 			memset(&ip, 0, sizeof(ip));
@@ -1344,10 +1344,28 @@ static void alloc_pfx_history(struct rng *r0, unsigned long fail_at, unsigned lo
 				else if (reason != NULL || rl != 0)
 					viol("C18", "C18:pfx:validate-error-leaves-reason", "pfx_table_validate_r failed but left reason=%p len=%u", (void *)reason, rl);
 			}
-			if (reason)
-				lrtr_free(reason);
+			/* the caller's array is handed in again by the next query (the library grows, shrinks or releases it): every
+			 * third time with a route nothing covers, so that the library itself gives the block back */
+			if (i % 18 == 5 && reason) {
+				struct lrtr_ip_addr far = ip;
+
+				if (far.ver == LRTR_IPV4)
+					far.u.addr4.addr ^= 0xA5000000u;
+				else
+					far.u.addr6.addr[0] ^= 0xA5000000u;
+				inj2 = AM.failures_injected;
+				vrc = pfx_table_validate_r(&t, &reason, &rl, 4242424242u, &far, q->fam == 4 ? 32 : 128, &st);
+				CNT("c18/pfx/reason_array_handed_back_in");
+				if (vrc == PFX_SUCCESS && st == BGP_PFXV_STATE_NOT_FOUND) {
+					CNT("c18/pfx/reason_array_released_by_the_library");
+					if (reason != NULL || rl != 0)
+						viol("C18", "C18:pfx:not-found-leaves-reason", "NOT FOUND with a reused reason array left reason=%p len=%u", (void *)reason, rl);
+				}
+			}
 		}
 	}
+	if (reason)
+		lrtr_free(reason);
 	pfx_table_free(&t);
 	MN = 0;
 	*nreq = AM.requests;
